@@ -499,8 +499,11 @@ def classify(lay, rsent, code, spec_defunct, keys=()):
     """Stable signature of a divergence: names the class of failure, not the instance."""
     s = segment_at(lay, rsent)
     kind = "compressed" if lay.segs[s]["z"] else "uncompressed"
+    if any(not x.get("exact") for x in (code.get("delivered") or []) + (code.get("pushed") or [])):
+        return "altered-data-delivered-to-handler"
     if code.get("altered"):
-        return "altered-data-delivered"
+        return ("altered-frame-handed-to-process_msg-after-defunct" if code.get("defunct")
+                else "altered-frame-handed-to-process_msg")
     if not spec_defunct and code.get("defunct"):
         return "spurious-defunct:codec=%s:segment=%s" % (lay.codec, kind)
     if spec_defunct and not code.get("defunct"):
